@@ -87,6 +87,7 @@ fn gen_jv(rng: &mut Rng, depth: u32) -> JV {
         1 => JV::Bool(rng.chance(1, 2)),
         2 => JV::Num(rng.range(-50, 1000) as f64),
         3 => JV::Num(*rng.pick(&[0.5, 1.25, -3.75, 1e6, 123456.789, 0.001, -0.0, 9007199254740992.0, 1e-7, 123456789012345.0])),
+        4 if rng.chance(1, 3) => JV::Str((*rng.pick(&["a;b", "x // y", "#k", "do { return 1 }", "a,b", "-o", "--input", "1 + 1", "output z = 1", "[1, 2]", "a=b", "tab\tsemi; colon:", "$HOME", "%s", "*"])).to_string()),
         4 => JV::Str((*rng.pick(&["", "x", "héllo", "a b", "q\\z", "line", "12", "true", "ü", "say \"hi\"", "line1\nline2", "tab\there", "it's", "😀 emoji", "{\"not\":\"json\"}"])).to_string()),
         5 => JV::List((0..rng.below(4)).map(|_| gen_jv(rng, depth + 1)).collect()),
         _ => {
@@ -275,7 +276,7 @@ fn gen_script(rng: &mut Rng, inputs_hint: &[String], world: &[(String, JV)]) -> 
             }
             _ => {
                 if allow_comments {
-                    stmts.push(CStmt::Comment("note".into()))
+                    stmts.push(CStmt::Comment((*rng.pick(&["note", "first; second", "x = 1; output y = x", "uses #k ?? 2", "\"quoted\"", "trailing space "])).to_string()))
                 } else if !free.is_empty() {
                     let name = (**rng.pick(&free)).to_string();
                     bound.push((name.clone(), false));
